@@ -157,12 +157,24 @@ proof fn step_acquire_and_transmit(g: Conn, i: int, end: int, s_new: Sfc, c_new:
     h
 }
 
-// RESET_STREAM: the final size announced is the stream's highest sent end (C12), hence obeys the same limits
-proof fn step_reset_final_size(g: Conn, i: int)
+// RESET_STREAM: SendStream::init_reset announces final_size == acquired (layer F:
+// C03/send_stream.init_reset/final_size_is_booked_connection_credit).  Consequences for every history:
+//  * it is never below what was sent on the stream (C12: final size >= data already sent);
+//  * all final sizes / stream lengths together stay within the largest MAX_DATA received (connection clause);
+//  * the per-stream clause holds whenever the booked credit is within the stream limit -- the complement is
+//    the known finding KF-C03-reset-final-size (credit is booked up to the highest *requested* offset).
+proof fn step_reset_final_size(g: Conn, i: int) -> (final_size: int)
     requires inv(g), 0 <= i < g.streams.len(),
-    ensures g.sent_end[i] <= g.msd_seen[i], sum_seq(g.sent_end) <= g.max_data_seen,
+    ensures
+        final_size == g.streams[i].acquired,
+        final_size >= g.sent_end[i],
+        sum_acquired(g.streams) <= g.max_data_seen,
+        g.streams[i].acquired <= g.streams[i].msd ==> final_size <= g.msd_seen[i],
 {
-    c03_limits_hold(g);
+    assert(sfc_inv(g.streams[i]));
+    assert(0 <= g.sent_end[i] <= sfc_window(g.streams[i]));
+    assert(g.streams[i].msd <= g.msd_seen[i]);
+    g.streams[i].acquired
 }
 
 // ---- stream-count limit -----------------------------------------------------------------------
@@ -182,4 +194,20 @@ proof fn step_open(g: Streams, n: Lic) -> (h: Streams)
     ensures inv_streams(h), h.s.opened <= h.max_streams_seen,
 {
     Streams { s: n, max_streams_seen: g.max_streams_seen }
+}
+
+// on_close_stream (contract: lic_on_close_counts); frees one slot of the local concurrency limit only
+proof fn step_close(g: Streams, n: Lic) -> (h: Streams)
+    requires inv_streams(g), g.s.closed < g.s.opened, lic_on_close_counts(g.s, n), n.local_max_open == g.s.local_max_open,
+    ensures inv_streams(h), h.s.opened == g.s.opened, h.max_streams_seen == g.max_streams_seen,
+{
+    Streams { s: n, max_streams_seen: g.max_streams_seen }
+}
+
+// available_stream_capacity() (contract: result == lic_capacity) is positive exactly when poll_open_stream may
+// return Ready, and opening that many streams stays within the largest MAX_STREAMS received
+proof fn lemma_capacity(g: Streams)
+    requires inv_streams(g),
+    ensures (lic_capacity(g.s) >= 1) == lic_open_allowed(g.s), g.s.opened + lic_capacity(g.s) <= g.max_streams_seen,
+{
 }
